@@ -235,68 +235,51 @@ func ruleC11Sync(c *Ctx) {
 	c.Doc(rule, "GetDeleteCandidateChain: candidates are the slice [1:indx] of the base-first chain, indx being the position at which the checkpoint was found, cut off by checkpointFound, indx>1, len>3, checkpoint != \"\"; a name is emitted only if the disk is not (UserCreated && !Removed) and its parent is not (UserCreated && !Removed).  InternalSnapshotCleaner: PrepareRemoveDisk is called with candidate[0] only when the controller's checkpoint equals the replica's; within one round RemoveDiffDisk is reachable from Coalesce only through Coalesce's success edge")
 	if fn := c.Anchor(rule, "sync.GetDeleteCandidateChain"); fn != nil {
 		R := NewRenderer(fn)
-		var slices []ssa.Instruction
+		src := fRep + "Chain($0)#0"
+		// (1) the base-first copy of the chain: built by appending chain[len-1..0], or allocated with
+		// the chain's length and filled at len-1-i
 		chain := "phi{append(…,&var(varargs)[:]) | nil}"
-		idx := "phi{* | 0}"
-		viaFind := false
+		rev := false
 		eachInstr(fn, func(in ssa.Instruction) {
-			if s, ok := in.(*ssa.Slice); ok {
-				switch r := R.V(s); {
-				case strings.HasSuffix(r, "[+1:+phi{* | 0}]"):
-					slices = append(slices, in)
-				case strings.HasSuffix(r, "[+1:+sync.find("+chain+",$1)]"):
-					// the position comes from the package's own search helper
-					slices = append(slices, in)
-					idx, viaFind = "sync.find("+chain+",$1)", true
-				}
-			}
-		})
-		if len(slices) == 0 {
-			c.Bad(rule, FnName(fn)+" | candidate range is chain[1:indx]", "", "no slice of the chain from 1 up to (excluding) the checkpoint's index", nil)
-		} else {
-			foundNeed := atom("checkpoint found in chain", "phi{false | true}")
-			if viaFind {
-				// find answers -1 when the item is absent: indx >= 2 implies "found"
-				foundNeed = atom("checkpoint found in chain (find() >= 2)", "+"+idx+" -2 >=0")
-			}
-			c.Guard(rule, fn, slices[:1], "candidates = chain[1:indx]", nil,
-				foundNeed,
-				atom("checkpoint not base nor the one above it", "+"+idx+" -2 >=0"),
-				atom("chain longer than head+latest+base", "+len("+chain+") -4 >=0"),
-				atom("checkpoint given", neAtom(`""`, "$1")))
-			// the index is where the checkpoint was found
-			found := false
-			if viaFind {
-				found = findIsFirstIndexOrMinusOne(c)
-			}
-			for _, ea := range allAtoms(fn, R) {
-				if ea.Atom.String() == eqAtom("$1", chain+"[*]") {
-					found = true
-				}
-			}
-			if found {
-				c.OK(rule, FnName(fn)+" | indx is the checkpoint's position", "", "search loop compares each chain element with the checkpoint and breaks", false)
-			} else {
-				c.Bad(rule, FnName(fn)+" | indx is the checkpoint's position", "", "the search for the checkpoint in the chain changed", nil)
-			}
-			// the chain is reversed (base first)
-			rev := false
-			eachInstr(fn, func(in ssa.Instruction) {
-				if cl, ok := in.(*ssa.Call); ok && callMatches(cl, "builtin:append") {
-					if el := appendedElem(R, cl); el == fRep+"Chain($0)#0[-* +len("+fRep+"Chain($0)#0) -1]" {
+			switch x := in.(type) {
+			case *ssa.Call:
+				if callMatches(x, "builtin:append") {
+					if el := appendedElem(R, x); el == src+"[-* +len("+src+") -1]" {
 						rev = true
 					}
 				}
-			})
-			if rev {
-				c.OK(rule, FnName(fn)+" | chain walked base first", "", "replicaChain built from chain[len-1..0]", false)
-			} else {
-				c.Bad(rule, FnName(fn)+" | chain walked base first", "", "the base-first copy of the chain is built differently", nil)
+			case *ssa.Store:
+				filled := "makeslice(len(" + src + "))"
+				if R.V(x.Addr) == "&"+filled+"[-* +len("+src+") -1]" && R.V(x.Val) == src+"[*]" {
+					// every element is placed: the filling loop must have run to its end before the copy is used
+					chain, rev = filled, true
+				}
 			}
+		})
+		if rev {
+			c.OK(rule, FnName(fn)+" | chain walked base first", "", "the base-first copy holds chain[len-1-i] at i", false)
+		} else {
+			c.Bad(rule, FnName(fn)+" | chain walked base first", "", "the base-first copy of the chain is built differently", nil)
 		}
+		// (2) the checkpoint's position: a search loop with a found flag, or the package's find()
+		idx, viaFind := "phi{* | 0}", false
+		eachInstr(fn, func(in ssa.Instruction) {
+			if cl, ok := in.(*ssa.Call); ok && callRender(R, cl) == "sync.find("+chain+",$1)" {
+				idx, viaFind = "sync.find("+chain+",$1)", true
+			}
+		})
+		// (3) the candidates: range over chain[1:idx], or an index loop from 1 while pos < idx
+		var slices []ssa.Instruction
+		eachInstr(fn, func(in ssa.Instruction) {
+			if s, ok := in.(*ssa.Slice); ok && R.V(s) == chain+"[+1:+"+idx+"]" {
+				slices = append(slices, in)
+			}
+		})
 		cand := chain + "[+1:+" + idx + "][*]"
-		D := fRep + "ListDisks($0)[" + cand + "]"
-		Pp := fRep + "ListDisks($0)[" + D + ".Parent]"
+		byIndex := false
+		if len(slices) == 0 {
+			cand, byIndex = chain+"[+*1]", true
+		}
 		var names []ssa.Instruction
 		eachInstr(fn, func(in ssa.Instruction) {
 			if s, ok := in.(*ssa.Store); ok && strings.HasSuffix(R.V(s.Addr), ".name") {
@@ -309,6 +292,46 @@ func ruleC11Sync(c *Ctx) {
 		if len(names) == 0 {
 			c.Bad(rule, FnName(fn)+" | emits candidates", "", "no candidate name is stored", nil)
 		}
+		foundNeed := atom("checkpoint found in chain", "phi{false | true}")
+		if viaFind {
+			// find answers -1 when the item is absent: indx >= 2 implies "found"
+			foundNeed = atom("checkpoint found in chain (find() >= 2)", "+"+idx+" -2 >=0")
+		}
+		rangeNeeds := []Need{foundNeed,
+			atom("checkpoint not base nor the one above it", "+"+idx+" -2 >=0"),
+			atom("chain longer than head+latest+base", "+len("+chain+") -4 >=0"),
+			atom("checkpoint given", neAtom(`""`, "$1"))}
+		if byIndex {
+			rangeNeeds = append(rangeNeeds, atom("candidate below the checkpoint", "-*1 +"+idx+" -1 >=0"))
+			if chain != "phi{append(…,&var(varargs)[:]) | nil}" {
+				rangeNeeds = append(rangeNeeds, atom("base-first copy complete", "+* -len("+src+") >=0"))
+			}
+			c.Guard(rule, fn, names, "candidates = chain[1:indx]", nil, rangeNeeds...)
+		} else if len(slices) == 0 {
+			c.Bad(rule, FnName(fn)+" | candidate range is chain[1:indx]", "", "no slice of the chain from 1 up to (excluding) the checkpoint's index", nil)
+		} else {
+			if chain != "phi{append(…,&var(varargs)[:]) | nil}" {
+				rangeNeeds = append(rangeNeeds, atom("base-first copy complete", "+* -len("+src+") >=0"))
+			}
+			c.Guard(rule, fn, slices[:1], "candidates = chain[1:indx]", nil, rangeNeeds...)
+		}
+		// the index is where the checkpoint was found
+		found := false
+		if viaFind {
+			found = findIsFirstIndexOrMinusOne(c)
+		}
+		for _, ea := range allAtoms(fn, R) {
+			if ea.Atom.String() == eqAtom("$1", chain+"[*]") {
+				found = true
+			}
+		}
+		if found {
+			c.OK(rule, FnName(fn)+" | indx is the checkpoint's position", "", "search loop compares each chain element with the checkpoint and breaks", false)
+		} else {
+			c.Bad(rule, FnName(fn)+" | indx is the checkpoint's position", "", "the search for the checkpoint in the chain changed", nil)
+		}
+		D := fRep + "ListDisks($0)[" + cand + "]"
+		Pp := fRep + "ListDisks($0)[" + D + ".Parent]"
 		c.Guard(rule, fn, names, "emit candidate", nil,
 			atom("disk is not a retained user snapshot", "!"+D+".UserCreated", D+".Removed"),
 			atom("merge target (parent) is not a retained user snapshot", "!"+Pp+".UserCreated", Pp+".Removed"))
